@@ -585,6 +585,39 @@ class _DEFAULT:
     pass
 
 
+def raw_items(wrapper: Any) -> list:
+    """The raw list through the public API (iteration); private `_repeated.items` only as a fallback."""
+    try:
+        return list(iter(wrapper))
+    except Exception:  # noqa: BLE001
+        rep = getattr(wrapper, 'repeated', None) or getattr(wrapper, '_repeated', None)
+        return list(rep.items)
+
+
+def _int_list(x: Any, n: int) -> bool:
+    return isinstance(x, list) and len(x) == n and all(type(i) is int for i in x)
+
+
+def observe_cache(view: Any, raw: Any) -> Optional[list]:
+    """The view's private index cache if it can be observed (additional check), else None."""
+    got = getattr(view, '_raw_indexes', None)
+    if isinstance(got, list):
+        return list(got)
+    try:
+        n = len(view)
+    except Exception:  # noqa: BLE001
+        return None
+    cands = [x for x in getattr(view, '__dict__', {}).values() if _int_list(x, n)]
+    if not cands:
+        for h in getattr(raw, '_update_handlers', None) or []:
+            hd = getattr(h, '__dict__', {})
+            if any(val is view for val in hd.values()):
+                cands += [x for x in hd.values() if _int_list(x, n)]
+    if cands and all(c == cands[0] for c in cands):
+        return list(cands[0])
+    return None
+
+
 def idx_class(idx) -> str:
     if isinstance(idx, int):
         return 'neg-int' if idx < 0 else 'int'
@@ -618,7 +651,8 @@ class Runner:
         self.failures: list[dict] = []
         self.foreign: Optional[str] = None
         self.executed = 0
-        self.init_items = [self.scn.elem(x) for x in self.scn.raw._repeated.items]
+        self.init_items = [self.scn.elem(x) for x in raw_items(self.scn.raw)]
+        self.unobservable = 0
         self.classes: list[str] = []
 
     # ---- encoding ----
@@ -637,7 +671,7 @@ class Runner:
         return coq_list(self.E(e) for e in es)
 
     def items(self) -> list:
-        return list(self.scn.raw._repeated.items)
+        return raw_items(self.scn.raw)
 
     def filtered(self, vname: str, items=None) -> list:
         tags = self.scn.view_specs[vname]['tags']
@@ -672,7 +706,7 @@ class Runner:
         scn = self.scn
         donor = Scn(scn.name, op[1])
         new = copy.deepcopy(donor.raw)
-        expected = list(new._repeated.items)
+        expected = raw_items(new)
         old_registered = list(self.registered)
         self.stale_views = getattr(self, 'stale_views', []) + list(self.views.values())   # kept alive
         try:
@@ -683,7 +717,7 @@ class Runner:
         after = self.items()
         self.registered, self.views = [], {}
         self.steps.append((f'(RAssign {self.EL(scn.elem(x) for x in after)})',
-                           f'(mkobs 0 [] {self.EL(scn.elem(x) for x in after)} [])'))
+                           f'(mkobs 0 [] {self.EL(scn.elem(x) for x in after)} true [])'))
         self.classes.append('r_assign')
         if scn.raw is not new or not (len(after) == len(expected) and all(a is b for a, b in zip(after, expected))):
             self.fail('C10:list-semantics', 'r_assign: the raw list is not the assigned wrapper / its elements')
@@ -732,8 +766,12 @@ class Runner:
         if exc is None:
             out = self.encode_ret(op, vname, ret)
         code = 0 if exc is None else EXC.get(exc, 9)
-        idxs = [list(self.views[v]._raw_indexes) for v in self.registered]
-        obs = (f'(mkobs {code} {self.EL(out)} {self.EL(scn.elem(x) for x in after)} '
+        idxs = [observe_cache(self.views[v], scn.raw) for v in self.registered]
+        has_idx = all(i is not None for i in idxs)
+        if not has_idx:
+            self.unobservable += 1
+            idxs = []
+        obs = (f'(mkobs {code} {self.EL(out)} {self.EL(scn.elem(x) for x in after)} {coq_bool(has_idx)} '
                f'{coq_list(coq_zlist(i) for i in idxs)})')
         self.steps.append((coq_op, obs))
         self.classes.append(cls + ('!' + exc if exc else ''))
@@ -766,14 +804,15 @@ class Runner:
             except Exception as e:  # noqa: BLE001
                 self.fail(self.sig_view,
                           f'reading view {scn.name}.{v} raised {type(e).__name__} after {cls} '
-                          f'(_raw_indexes={list(w._raw_indexes)}, raw length {len(items)})')
+                          f'(_raw_indexes={observe_cache(w, scn.raw)}, raw length {len(items)})')
                 return False
             positions = [i for i, x in enumerate(items) if scn.tag_of(x) in scn.view_specs[v]['tags']]
-            if n != len(F) or not self.same_list(v, got, F) or list(w._raw_indexes) != positions or \
+            cache = observe_cache(w, scn.raw)
+            if n != len(F) or not self.same_list(v, got, F) or (cache is not None and cache != positions) or \
                     not self.same_list(v, singles, [F[i] for i in range(-len(F), len(F))]):
                 self.fail(self.sig_view,
                           f'view {scn.name}.{v} differs from the raw list filtered at that moment after {cls}: '
-                          f'_raw_indexes={list(w._raw_indexes)} but matching positions are '
+                          f'_raw_indexes={cache} but matching positions are '
                           f'{[i for i, x in enumerate(items) if scn.tag_of(x) in scn.view_specs[v]["tags"]]}')
                 return False
             if scn.view_specs[v]['mapping']:
@@ -1120,6 +1159,8 @@ def run_all(ctx: common.Ctx):
         for c in r.classes:
             ctx.dist('op=' + c)
         ctx.count('impl_steps', len(r.steps))
+        if r.unobservable:
+            ctx.count('private_state_unobservable', r.unobservable)
         if r.foreign:
             ctx.count('histories_cut_by_token_layer_exception')
             ctx.dist('token-layer:' + r.foreign)
@@ -1128,6 +1169,10 @@ def run_all(ctx: common.Ctx):
         if r.steps:
             cases.append(coq_case(r))
             metas.append((name, layout, ops, len(r.steps)))
+    if ctx.counters.get('private_state_unobservable') and not any('private index cache' in n for n in ctx.notes):
+        ctx.notes.append('the private index cache of the views (_raw_indexes) could not be observed on this tree: only the '
+                         'behavioural correspondence (results, exception classes, raw list, list(view)/len/view[i]) was '
+                         'checked on those steps')
     bad = ctx.run_coq_cases('views', PREAMBLE, 'vcase', 'check_case', cases, chunk=25)
     ctx.count('traces_validated_against_impl', len(cases) - len(bad))
     if bad:
